@@ -248,3 +248,36 @@ example : (setChild exRules 0 4 1 exHeap2).2.toBool = true ∧ listOf (setChild 
     listOf (setChild exRules 0 4 (-2) exHeap2).1 0 = [1, 4, 3, 5] := by decide
 
 end Hl7.Heap
+
+namespace Hl7.Heap
+
+/-- Python's `l[-len(l)]` is the first element: the lowest negative index still addresses a repetition (the boundary seed C09-i moved) -/
+theorem pyIdx_neg_length (l : List Nat) (h : l ≠ []) : pyIdx l (-(l.length : Int)) = l.head? := by
+  unfold pyIdx
+  have hpos : 0 < l.length := List.length_pos_iff.mpr h
+  have h1 : ¬ (-(l.length : Int) ≥ 0) := by omega
+  simp only [h1, ↓reduceIte, Int.neg_neg, Int.toNat_natCast, Nat.le_refl, Nat.sub_self]
+  cases l with
+  | nil => exact absurd rfl h
+  | cons a t => simp
+
+/-- … and one below it addresses nothing: `set` then appends, `remove_by_name` refuses -/
+theorem pyIdx_below (l : List Nat) : pyIdx l (-(l.length : Int) - 1) = none := by
+  unfold pyIdx
+  have h1 : ¬ (-(l.length : Int) - 1 ≥ 0) := by omega
+  have h2 : ¬ ((-(-(l.length : Int) - 1)).toNat ≤ l.length) := by omega
+  simp only [h1, ↓reduceIte, h2]
+
+/-- `l[-1]` is the last element -/
+theorem pyIdx_neg_one (l : List Nat) : pyIdx l (-1) = l.getLast? := by
+  unfold pyIdx
+  cases hl : l with
+  | nil => simp
+  | cons a t =>
+    have : ¬ ((-1 : Int) ≥ 0) := by omega
+    simp only [this, ↓reduceIte, Int.reduceNeg, Int.neg_neg, Int.toNat_one, List.length_cons]
+    have h3 : (1 : Nat) ≤ t.length + 1 := by omega
+    simp only [h3, ↓reduceIte, Nat.add_sub_cancel]
+    rw [List.getLast?_eq_getElem?]
+    simp
+end Hl7.Heap
